@@ -5,12 +5,15 @@ package metadata
 import (
 	"context"
 	"fmt"
+	"runtime"
 	"strings"
+	"sync"
 	"testing"
 
 	"github.com/KafScale/platform/internal/verif/enum"
 	"github.com/KafScale/platform/internal/verif/fakeetcd"
 	"github.com/KafScale/platform/internal/verif/vh"
+	metadatapb "github.com/KafScale/platform/pkg/gen/metadata"
 )
 
 // C22 (metadata half): for every pair of topic names accepted by topic creation, the
@@ -78,6 +81,63 @@ func c22KeysOf(topic string) c22Keys {
 	return k
 }
 
+// c22DeleteLeavesOther creates topics a and b on both real stores, gives b per-topic state
+// (offset, config, an added partition, a committed consumer offset), deletes a and checks
+// that nothing of b changed.
+func c22DeleteLeavesOther(a, b string) (string, string) {
+	ctx := context.Background()
+	// etcd store over the fake etcd
+	srv := fakeetcd.NewServer()
+	cli := srv.NewClient("b1")
+	cli.NoPoints = true
+	es := VerifNewEtcdStore(cli.C, c21Meta(0), false)
+	defer es.Close()
+	mem := NewInMemoryStore(c21Meta(0))
+	for _, st := range []Store{es, mem} {
+		for _, n := range []string{a, b} {
+			if _, err := st.CreateTopic(ctx, TopicSpec{Name: n, NumPartitions: 1, ReplicationFactor: 1}); err != nil {
+				return "", ""
+			}
+		}
+		_ = st.UpdateOffsets(ctx, b, 0, 41)
+		_ = st.UpdateTopicConfig(ctx, &metadatapb.TopicConfig{Name: b, Partitions: 1, ReplicationFactor: 1, RetentionMs: 120000, SegmentBytes: 1 << 20})
+		_ = st.CreatePartitions(ctx, b, 2)
+		_ = st.CommitConsumerOffset(ctx, "g", b, 0, 7, "m")
+	}
+	before := srv.Dump("/kafscale/")
+	if err := es.DeleteTopic(ctx, a); err != nil {
+		return "", ""
+	}
+	_ = mem.DeleteTopic(ctx, a)
+	after := srv.Dump("/kafscale/")
+	for k := range before {
+		if _, ok := after[k]; ok {
+			continue
+		}
+		// keys that name topic a itself may go; anything else belonged to b (or is shared)
+		if k == TopicConfigKey(a) || k == offsetKey(a, 0) || k == PartitionStateKey(a, 0) {
+			continue
+		}
+		return "delete-topic-removed-other-topics-key", fmt.Sprintf("DeleteTopic(%q) removed etcd key %s while topic %q exists", a, k, b)
+	}
+	for name, st := range map[string]Store{"etcd": es, "inmem": mem} {
+		if n, err := st.NextOffset(ctx, b, 0); err != nil || n != 42 {
+			return "delete-topic-changed-other-topics-offset", fmt.Sprintf("%s store: after DeleteTopic(%q), NextOffset(%q,0) = %d, %v (want 42)", name, a, b, n, err)
+		}
+		if c, err := st.FetchTopicConfig(ctx, b); err != nil || c.RetentionMs != 120000 {
+			return "delete-topic-changed-other-topics-config", fmt.Sprintf("%s store: after DeleteTopic(%q), config of %q = %v, %v", name, a, b, c, err)
+		}
+		if off, meta, err := st.FetchConsumerOffset(ctx, "g", b, 0); err != nil || off != 7 || meta != "m" {
+			return "delete-topic-changed-other-topics-consumer-offset", fmt.Sprintf("%s store: after DeleteTopic(%q), committed offset of g on %q = %d/%q, %v", name, a, b, off, meta, err)
+		}
+		m, err := st.Metadata(ctx, []string{b})
+		if err != nil || len(m.Topics) != 1 || m.Topics[0].ErrorCode != 0 || len(m.Topics[0].Partitions) != 2 {
+			return "delete-topic-changed-other-topic", fmt.Sprintf("%s store: after DeleteTopic(%q), metadata of %q = %+v, %v", name, a, b, m, err)
+		}
+	}
+	return "", ""
+}
+
 func TestVerifC22(t *testing.T) {
 	rep := vh.New(t, "C22")
 	defer rep.Finish()
@@ -138,6 +198,40 @@ func TestVerifC22(t *testing.T) {
 	if len(accepted) >= 2 {
 		rep.Sample(map[string]any{"accepted_examples": accepted[:min(8, len(accepted))]})
 	}
+	// Behavioural half: deleting topic a through the real stores must leave every key and
+	// every observable value of any other accepted topic b intact (the deletion ranges are
+	// taken from the code as it runs, not from a copy of the key scheme).
+	type pair struct{ a, b string }
+	jobs := make(chan pair, 256)
+	var wg sync.WaitGroup
+	var mu sync.Mutex
+	pairsDone := 0
+	for w := 0; w < runtime.GOMAXPROCS(0); w++ {
+		wg.Add(1)
+		go func() {
+			defer wg.Done()
+			for pr := range jobs {
+				key, detail := c22DeleteLeavesOther(pr.a, pr.b)
+				mu.Lock()
+				pairsDone++
+				if key != "" {
+					rep.Violationf(key+":"+class(pr.a)+"+"+class(pr.b), []string{pr.a, pr.b}, "%s", detail)
+				}
+				mu.Unlock()
+			}
+		}()
+	}
+	for _, a := range accepted {
+		for _, b := range accepted {
+			if a != b {
+				jobs <- pair{a, b}
+			}
+		}
+	}
+	close(jobs)
+	wg.Wait()
+	rep.Eval(int64(pairsDone))
+	rep.Count("delete_pairs_executed", int64(pairsDone))
 	// a rejected name is fine; an accepted name that is not a plain Kafka name is reported once per class
 	for _, n := range accepted {
 		if c := class(n); c != "other" {
